@@ -41,9 +41,12 @@ VARIABLES
   ioFailed,   \* [1..nf -> BOOLEAN] a read/write/lseek/fsync/close(target) failed for the file
   cleanupBroken, \* [1..nf -> BOOLEAN] removing the junk target was impossible (stat/unlink failed, swapped)
   envTouched, \* [1..nf -> BOOLEAN] somebody else moved one of the files meanwhile
+  dstDamaged, \* [1..nf -> BOOLEAN] zeros that belong to another file were skipped into this target
   srcOpen, dstOpen, dirOpen, dstStKnown, restoreOut,
   success,    \* the flag handed from coder_run() to io_close()
   srcEof, outFull, mustFill, mustWrite, abortW,
+  hole,       \* 0, or the index of the file whose decoded zeros wait as a not-yet-created hole
+              \* (pair->dest_pending_sparse > 0); io_open_src() starts every file with 0
   intr,       \* "none" | "read" | "write": the last read()/write() returned EINTR; the code looks at
               \* user_abort only after the handler (if any) has run
   userAbort, exitSignal, sigPending, sigBlocked, sigGrace,
@@ -54,9 +57,9 @@ VARIABLES
   lostForeign,\* xz unlinked a file that was not the one it opened/created
   nfault, nsig
 
-fvars   == <<src, dst, dstSynced, dirSynced, dstClosedOk, ioFailed, cleanupBroken, envTouched, lostForeign>>
+fvars   == <<src, dst, dstSynced, dirSynced, dstClosedOk, ioFailed, cleanupBroken, envTouched, dstDamaged, lostForeign>>
 pvars   == <<srcOpen, dstOpen, dirOpen, dstStKnown, restoreOut, success>>
-iovars  == <<srcEof, outFull, mustFill, mustWrite, abortW, intr>>
+iovars  == <<srcEof, outFull, mustFill, mustWrite, abortW, intr, hole>>
 sigvars == <<userAbort, exitSignal, sigPending, sigBlocked, sigGrace, nsig, blip>>
 vars    == <<cfg, pc, cur, fvars, pvars, iovars, sigvars, exitStatus, listSt, nfault>>
 
@@ -104,7 +107,9 @@ Init0(c) ==
    nfault |-> 0,
    nsig |-> 0,
    blip |-> FALSE,
-   intr |-> "none"]
+   intr |-> "none",
+   hole |-> 0,
+   dstDamaged |-> [i \in 1..c.nf |-> FALSE]]
 InitWith(c) == LET v == Init0(c) IN
   /\ cfg = v.cfg
   /\ pc = v.pc
@@ -140,6 +145,8 @@ InitWith(c) == LET v == Init0(c) IN
   /\ nsig = v.nsig
   /\ blip = v.blip
   /\ intr = v.intr
+  /\ hole = v.hole
+  /\ dstDamaged = v.dstDamaged
 (* a new process on fresh files (trace validation: next recorded execution) *)
 ResetTo(c) == LET v == Init0(c) IN
   /\ cfg' = v.cfg
@@ -176,6 +183,8 @@ ResetTo(c) == LET v == Init0(c) IN
   /\ nsig' = v.nsig
   /\ blip' = v.blip
   /\ intr' = v.intr
+  /\ hole' = v.hole
+  /\ dstDamaged' = v.dstDamaged
 
 ----------------------------------------------------------------------------
 (* helpers *)
@@ -205,6 +214,9 @@ OpenDestPoint ==
 \* io_open_dest_real(): label error
 OdError == IF dirOpen THEN "close_dir_err" ELSE "unblock_odfail"
 
+\* after more output has been decoded: full blocks of zeros are not written but remembered (io_write())
+MoreHole(h) == IF cfg.dec /\ h = 0 THEN {0, cur} ELSE {h}
+
 NamesLeft == cur <= cfg.nf
 \* main(): may the next file be started?
 CanStart == ~userAbort /\ NamesLeft /\ (cfg.files => listSt = "buffered")
@@ -214,6 +226,7 @@ ExitReady == pc = "main" /\ IF cfg.files THEN listSt = "closed" ELSE (userAbort 
 NewFile == /\ srcOpen' = FALSE /\ dstOpen' = FALSE /\ dirOpen' = FALSE /\ dstStKnown' = FALSE
            /\ success' = FALSE /\ srcEof' = FALSE /\ outFull' = FALSE /\ mustFill' = FALSE
            /\ mustWrite' = FALSE /\ abortW' = 0 /\ intr' = "none"
+           /\ hole' = 0                         \* .dest_pending_sparse = 0 in io_open_src()
 
 ----------------------------------------------------------------------------
 (* signals_block(): rt_sigprocmask(SIG_BLOCK, hooked) -- start of io_open_src, io_open_dest, io_close *)
@@ -229,7 +242,7 @@ Block ==
            ELSE /\ success' = FALSE /\ pc' = ClosePoint(FALSE)                      \* io_close(pair, false)
                 /\ exitStatus' = IF cfg.input[cur] = "badformat" THEN Err(exitStatus) ELSE exitStatus
      \/ /\ pc \in {"first_read", "coding"} /\ intr # "none" /\ userAbort   \* io_read/io_write: EINTR and user_abort
-        /\ UNCHANGED <<srcOpen, dstOpen, dirOpen, dstStKnown, srcEof, outFull, abortW, exitStatus>>
+        /\ UNCHANGED <<srcOpen, dstOpen, dirOpen, dstStKnown, srcEof, outFull, abortW, hole, exitStatus>>
         /\ mustFill' = FALSE /\ mustWrite' = FALSE /\ intr' = "none"
         /\ success' = FALSE /\ pc' = ClosePoint(FALSE)
      \/ /\ pc = "coding" /\ ~mustFill /\ ~mustWrite /\ intr = "none"   \* coder_normal() returned; io_close()
@@ -250,12 +263,12 @@ Block ==
 (* signals_unblock(): rt_sigprocmask(SIG_UNBLOCK, hooked) *)
 Unblock ==
   /\ Sys /\ sigBlocked /\ sigBlocked' = FALSE
-  /\ UNCHANGED <<fvars, pvars, iovars, exitStatus, listSt, nfault>>
-  /\ \/ pc = "unblock_os" /\ pc' = (IF cfg.dec THEN "first_read" ELSE "inited") /\ UNCHANGED cur
-     \/ pc = "unblock_osfail" /\ pc' = "main" /\ cur' = cur + 1
-     \/ pc = "unblock_od" /\ pc' = "coding" /\ UNCHANGED cur
-     \/ pc = "unblock_odfail" /\ pc' = "closing" /\ UNCHANGED cur
-     \/ pc = "unblock_done" /\ pc' = "main" /\ cur' = cur + 1
+  /\ UNCHANGED <<fvars, pvars, srcEof, outFull, mustFill, mustWrite, abortW, intr, exitStatus, listSt, nfault>>
+  /\ \/ pc = "unblock_os" /\ pc' = (IF cfg.dec THEN "first_read" ELSE "inited") /\ UNCHANGED <<cur, hole>>
+     \/ pc = "unblock_osfail" /\ pc' = "main" /\ cur' = cur + 1 /\ UNCHANGED hole
+     \/ pc = "unblock_od" /\ pc' = "coding" /\ UNCHANGED cur /\ hole' \in MoreHole(hole)   \* first chunk gets decoded
+     \/ pc = "unblock_odfail" /\ pc' = "closing" /\ UNCHANGED <<cur, hole>>
+     \/ pc = "unblock_done" /\ pc' = "main" /\ cur' = cur + 1 /\ UNCHANGED hole
 
 (* vmessage() (message_error/message_warning outside io_*()) and mytime_set_start_time() block and
    unblock the signals around code that touches no file *)
@@ -293,9 +306,10 @@ Read(k) ==
   /\ intr = "none" \/ (intr = "read" /\ ~userAbort)       \* EINTR: retry unless user_abort
   /\ \/ pc = "first_read"
      \/ pc = "coding" /\ ~mustWrite /\ (mustFill \/ intr = "read" \/ ~userAbort)
-  /\ UNCHANGED <<cur, src, dst, dstSynced, dirSynced, dstClosedOk, cleanupBroken, envTouched, lostForeign,
+  /\ UNCHANGED <<cur, src, dst, dstSynced, dirSynced, dstClosedOk, cleanupBroken, envTouched, dstDamaged, lostForeign,
                  pvars, outFull, mustWrite, abortW, sigBlocked, listSt>>
   /\ intr' = IF k = "eintr" THEN "read" ELSE "none"
+  /\ hole' \in IF pc = "coding" /\ k \in {"full", "eof"} THEN MoreHole(hole) ELSE {hole}
   /\ LET after == IF pc = "first_read" THEN "inited" ELSE "coding" IN
      CASE k = "full"  -> /\ mustFill' = FALSE /\ pc' = after
                          /\ UNCHANGED <<srcEof, exitStatus, nfault, ioFailed>>
@@ -332,7 +346,7 @@ OpenDir(r) ==
 (* unlink(target): with --force before creating it (r: "ok" | "noent" | "err"), or io_unlink() of junk *)
 UnlinkDst(r) ==
   /\ Sys /\ ~cfg.stdout
-  /\ UNCHANGED <<cur, src, dstSynced, dirSynced, dstClosedOk, ioFailed, envTouched, pvars, iovars, sigBlocked, listSt>>
+  /\ UNCHANGED <<cur, src, dstSynced, dirSynced, dstClosedOk, ioFailed, envTouched, dstDamaged, pvars, iovars, sigBlocked, listSt>>
   /\ \/ /\ pc = "unlink_force"
         /\ CASE r = "ok"    -> dst[cur] # "absent" /\ dst' = Set(dst, "absent") /\ pc' = "open_dst"
                                /\ UNCHANGED <<exitStatus, nfault>>
@@ -349,7 +363,7 @@ UnlinkDst(r) ==
 (* open(target, O_WRONLY|O_CREAT|O_EXCL, 0600) *)
 OpenDst(excl, r) ==
   /\ Sys /\ pc = "open_dst" /\ excl
-  /\ UNCHANGED <<cur, src, dstSynced, dirSynced, dstClosedOk, ioFailed, cleanupBroken, envTouched, lostForeign,
+  /\ UNCHANGED <<cur, src, dstSynced, dirSynced, dstClosedOk, ioFailed, cleanupBroken, envTouched, dstDamaged, lostForeign,
                  srcOpen, dirOpen, restoreOut, success, iovars, sigBlocked, listSt>>
   /\ IF r = "ok"
      THEN /\ dst[cur] = "absent"                 \* O_EXCL: an existing file makes the call fail
@@ -370,14 +384,16 @@ FstatDst(r) ==      \* failure: dest_st.st_dev = st_ino = 0, no message
   /\ UNCHANGED <<cur, fvars, srcOpen, dstOpen, dirOpen, restoreOut, success, iovars, sigBlocked, listSt, exitStatus>>
 
 (* lseek(): (a) stdout position probe for sparse output, (b) skipping a hole (io_write / io_close) *)
-Lseek(r) ==
+Lseek(r, own) ==       \* own: the skipped bytes are zeros of this file's content
   /\ Sys /\ cfg.dec /\ Fault(r)
   /\ UNCHANGED <<cur, src, dst, dstSynced, dirSynced, dstClosedOk, cleanupBroken, envTouched, lostForeign, pvars,
                  srcEof, outFull, mustFill, abortW, intr, sigBlocked, listSt>>
-  /\ \/ /\ pc = "lseek_out" /\ pc' = "unblock_od" /\ UNCHANGED <<mustWrite, exitStatus, ioFailed>>
+  /\ \/ /\ pc = "lseek_out" /\ pc' = "unblock_od" /\ UNCHANGED <<mustWrite, exitStatus, ioFailed, hole, dstDamaged>>
      \/ /\ pc = "coding" /\ ~outFull /\ ~mustFill /\ ~mustWrite /\ intr = "none" /\ (~userAbort \/ abortW < 2)
-        /\ IF r = "ok" THEN mustWrite' = TRUE /\ pc' = pc /\ UNCHANGED <<exitStatus, ioFailed>>
-           ELSE /\ UNCHANGED mustWrite /\ pc' = "closing" /\ exitStatus' = Err(exitStatus)
+        /\ hole # 0 /\ own = (hole = cur)          \* only a pending hole is ever skipped
+        /\ IF r = "ok" THEN /\ mustWrite' = TRUE /\ pc' = pc /\ hole' = 0 /\ UNCHANGED <<exitStatus, ioFailed>>
+                            /\ dstDamaged' = IF own THEN dstDamaged ELSE Set(dstDamaged, TRUE)
+           ELSE /\ UNCHANGED <<mustWrite, hole, dstDamaged>> /\ pc' = "closing" /\ exitStatus' = Err(exitStatus)
                 /\ ioFailed' = Set(ioFailed, TRUE)
 
 (* io_write_buf(): write() on the target.  k: "all" | "short" | "eintr" | "err";
@@ -387,12 +403,13 @@ Write(k, full) ==
   /\ intr = "none" \/ (intr = "write" /\ ~userAbort)      \* EINTR: retry unless user_abort
   /\ mustWrite \/ intr = "write" \/ ~userAbort \/ abortW < 2   \* at most the rest of one loop iteration after a signal
   /\ intr' = IF k = "eintr" THEN "write" ELSE "none"
-  /\ UNCHANGED <<cur, src, dirSynced, dstClosedOk, cleanupBroken, envTouched, lostForeign, pvars,
+  /\ hole' \in IF k = "all" THEN MoreHole(hole) ELSE {hole}
+  /\ UNCHANGED <<cur, src, dirSynced, dstClosedOk, cleanupBroken, envTouched, dstDamaged, lostForeign, pvars,
                  srcEof, mustFill, sigBlocked, listSt>>
   /\ CASE k = "all"   -> /\ mustWrite' = FALSE /\ outFull' = full /\ pc' = pc
                          /\ abortW' = IF userAbort THEN abortW + 1 ELSE abortW
                          /\ dst' = IF dst[cur] \in {"absent", "partial"}
-                                   THEN Set(dst, IF full THEN "complete" ELSE "partial") ELSE dst
+                                   THEN Set(dst, IF full /\ ~dstDamaged[cur] THEN "complete" ELSE "partial") ELSE dst
                          /\ dstSynced' = Set(dstSynced, FALSE)
                          /\ UNCHANGED <<exitStatus, nfault, ioFailed>>
        [] k = "short" -> /\ ~full /\ mustWrite' = TRUE /\ pc' = pc
@@ -421,7 +438,7 @@ Utimens(r) ==    \* (void)futimens()
   /\ UNCHANGED <<cur, fvars, pvars, iovars, sigBlocked, listSt, exitStatus>>
 FsyncDst(r) ==
   /\ Sys /\ pc = "fsync_dst" /\ Fault(r)
-  /\ UNCHANGED <<cur, src, dst, dirSynced, dstClosedOk, cleanupBroken, envTouched, lostForeign,
+  /\ UNCHANGED <<cur, src, dst, dirSynced, dstClosedOk, cleanupBroken, envTouched, dstDamaged, lostForeign,
                  srcOpen, dstOpen, dirOpen, dstStKnown, restoreOut, iovars, sigBlocked, listSt>>
   /\ IF r = "ok" THEN /\ dstSynced' = Set(dstSynced, TRUE) /\ pc' = "fsync_dir"
                       /\ UNCHANGED <<success, exitStatus, ioFailed>>
@@ -429,7 +446,7 @@ FsyncDst(r) ==
           /\ pc' = CdPoint(dstOpen, dirOpen, restoreOut) /\ UNCHANGED dstSynced
 FsyncDir(r) ==
   /\ Sys /\ pc = "fsync_dir" /\ Fault(r) /\ pc' = CdPoint(dstOpen, dirOpen, restoreOut)
-  /\ UNCHANGED <<cur, src, dst, dstSynced, dstClosedOk, cleanupBroken, envTouched, lostForeign,
+  /\ UNCHANGED <<cur, src, dst, dstSynced, dstClosedOk, cleanupBroken, envTouched, dstDamaged, lostForeign,
                  srcOpen, dstOpen, dirOpen, dstStKnown, restoreOut, iovars, sigBlocked, listSt>>
   /\ IF r = "ok" THEN dirSynced' = Set(dirSynced, TRUE) /\ UNCHANGED <<success, exitStatus, ioFailed>>
      ELSE /\ success' = FALSE /\ exitStatus' = Err(exitStatus) /\ ioFailed' = Set(ioFailed, TRUE)
@@ -438,7 +455,7 @@ FsyncDir(r) ==
 (* io_close_dest(): close the target first; a failed close or an unsuccessful operation removes it *)
 CloseDst(r) ==
   /\ Sys /\ pc = "close_dst" /\ Fault(r) /\ dstOpen' = FALSE
-  /\ UNCHANGED <<cur, src, dst, dstSynced, dirSynced, cleanupBroken, envTouched, lostForeign,
+  /\ UNCHANGED <<cur, src, dst, dstSynced, dirSynced, cleanupBroken, envTouched, dstDamaged, lostForeign,
                  srcOpen, dirOpen, dstStKnown, restoreOut, iovars, sigBlocked, listSt>>
   /\ IF r = "ok"
      THEN /\ dstClosedOk' = Set(dstClosedOk, TRUE) /\ UNCHANGED <<success, exitStatus, ioFailed>>
@@ -449,7 +466,7 @@ CloseDst(r) ==
 (* io_unlink(): lstat() (stat() with --force) and compare st_dev/st_ino with what fstat() saw *)
 StatDst(nofollow, r) ==
   /\ Sys /\ pc = "stat_dst" /\ nofollow = ~cfg.force /\ Fault(r)
-  /\ UNCHANGED <<cur, src, dst, dstSynced, dirSynced, dstClosedOk, ioFailed, envTouched, lostForeign,
+  /\ UNCHANGED <<cur, src, dst, dstSynced, dirSynced, dstClosedOk, ioFailed, envTouched, dstDamaged, lostForeign,
                  pvars, iovars, sigBlocked, listSt>>
   /\ IF r = "ok" /\ dst[cur] \in {"partial", "complete"} /\ dstStKnown
      THEN pc' = "unlink_dst" /\ UNCHANGED <<exitStatus, cleanupBroken>>
@@ -471,7 +488,7 @@ StatSrc(nofollow, r) ==
 
 UnlinkSrc(r) ==
   /\ Sys /\ pc = "unlink_src" /\ Fault(r) /\ pc' = "unblock_done"
-  /\ UNCHANGED <<cur, dst, dstSynced, dirSynced, dstClosedOk, ioFailed, cleanupBroken, envTouched,
+  /\ UNCHANGED <<cur, dst, dstSynced, dirSynced, dstClosedOk, ioFailed, cleanupBroken, envTouched, dstDamaged,
                  pvars, iovars, sigBlocked, listSt>>
   /\ IF r = "ok" THEN /\ src' = Set(src, "absent") /\ lostForeign' = (lostForeign \/ src[cur] = "foreign")
                       /\ UNCHANGED exitStatus
@@ -547,14 +564,14 @@ EnvReplace(what) ==
   /\ \/ what = "src" /\ src[cur] = "present" /\ pc # "unlink_src" /\ src' = Set(src, "foreign") /\ UNCHANGED dst
      \/ what = "dst" /\ ~cfg.stdout /\ dst[cur] \in {"partial", "complete"} /\ pc # "unlink_dst"
         /\ dst' = Set(dst, "foreign") /\ UNCHANGED src
-  /\ UNCHANGED <<cfg, pc, cur, dstSynced, dirSynced, dstClosedOk, ioFailed, cleanupBroken, lostForeign,
+  /\ UNCHANGED <<cfg, pc, cur, dstSynced, dirSynced, dstClosedOk, ioFailed, cleanupBroken, dstDamaged, lostForeign,
                  pvars, iovars, sigvars, exitStatus, listSt>>
 
 R2 == {"ok", "err"}
 Next ==
   \/ Block \/ Unblock \/ BlipBlock \/ BlipUnblock
   \/ \E r \in R2 : OpenSrc(r) \/ FstatSrc(r) \/ Fadvise(r) \/ OpenDir(r) \/ OpenDst(TRUE, r) \/ CloseDir(r)
-                   \/ FstatDst(r) \/ Lseek(r) \/ Fchown(r) \/ Fchmod(r) \/ Utimens(r) \/ FsyncDst(r) \/ FsyncDir(r)
+                   \/ FstatDst(r) \/ (\E o \in BOOLEAN : Lseek(r, o)) \/ Fchown(r) \/ Fchmod(r) \/ Utimens(r) \/ FsyncDst(r) \/ FsyncDir(r)
                    \/ CloseDst(r) \/ CloseSrc(r) \/ UnlinkSrc(r) \/ CloseStdout(r) \/ CloseStderr(r)
                    \/ StatDst(~cfg.force, r) \/ StatSrc(~cfg.force, r)
                    \/ FcntlOut("GETFL", r) \/ FcntlOut("SETFL", r)
